@@ -32,7 +32,7 @@ Example ex_vlq_bad : DecodeVLQUTF16 [103; 33] = Ok (0, 0, false).
 Proof. vm_compute. reflexivity. Qed.
 
 (* mappings "AAAA,CACA;AAgB" with one source: two mappings then an out-of-range line? no: three mappings *)
-Example ex_maps : exists ms, ParseMappings [(0, 0, 1, 0, [65;65;65;65;44;67;65;67;65;59;65;65;103;66;65])] = Ok (PMap 1 ms) /\ length ms = 3%nat.
+Example ex_maps : exists ms, ParseMappings [(0, 0, 1, 0, [65;65;65;65;44;67;65;67;65;59;65;65;103;66;65])] = Ok (PMap 1 0 ms) /\ length ms = 3%nat.
 Proof. eexists. vm_compute. split; reflexivity. Qed.
 Example ex_maps_err : ParseMappings [(0, 0, 1, 0, [65;67;65;65])] = Ok (PErr 0 4 1 1 1).
 Proof. vm_compute. reflexivity. Qed.
@@ -102,3 +102,11 @@ Example ex_jsxent_astral : decodeJSXEntities true small_entity_table [38;35;120;
 Proof. vm_compute. reflexivity. Qed.
 Example ex_parseint_range : ParseInt32 [50;49;52;55;52;56;51;54;52;56] 10 = None /\ ParseInt32 [45;50;49;52;55;52;56;51;54;52;56] 10 = Some (-2147483648).
 Proof. vm_compute. split; reflexivity. Qed.
+
+From V Require Import C16.Vlq16Proofs.
+(* two sections (3 sources + 2 names, then 1 source + 1 name): hypotheses of parsed_map_indices_in_range hold and
+   the second section's indices are offset by the first section's counts: "AAAAC" -> source 0, name 1; "AAAAA" -> source 3, name 2 *)
+Example ex_sections_ok : sections_ok [(0, 0, 3, 2, [65;65;65;65;67]); (1, 0, 1, 1, [65;65;65;65;65])] /\
+  ParseMappings [(0, 0, 3, 2, [65;65;65;65;67]); (1, 0, 1, 1, [65;65;65;65;65])]
+  = Ok (PMap 4 3 [(0, 0, 0, 0, 0, 1); (1, 0, 3, 0, 0, 2)]).
+Proof. split; [repeat constructor; lia | vm_compute; reflexivity]. Qed.
